@@ -9,10 +9,10 @@ scratch=$(mktemp -d /var/tmp/seed.XXXXXX)
 trap 'rm -rf "$scratch"' EXIT
 rsync -a --exclude .git --exclude __pycache__ --exclude _seed /repo/ "$scratch/"
 mkdir -p "$scratch/_seed"; cp "$demo" "$scratch/_seed/demo.py"
-( cd "$scratch" && /venv/bin/python _seed/demo.py >/dev/null 2>&1 ); demo_clean=$?
+( cd "$scratch" && PYTHONPATH="$scratch" /venv/bin/python _seed/demo.py >/dev/null 2>&1 ); demo_clean=$?
 ( cd "$scratch" && patch -p1 -s < "$patch" ) || { echo "PATCH FAILED"; exit 3; }
 suite=$( cd "$scratch" && /venv/bin/python -m pytest -q -p no:cacheprovider --timeout=900 2>&1 | tail -1 )
-( cd "$scratch" && /venv/bin/python _seed/demo.py >/dev/null 2>&1 ); demo_mut=$?
+( cd "$scratch" && PYTHONPATH="$scratch" /venv/bin/python _seed/demo.py >/dev/null 2>&1 ); demo_mut=$?
 echo "seed=$id property=$prop suite_with_change='$suite' demo_without_change_rc=$demo_clean demo_with_change_rc=$demo_mut"
 res=""
 for c in "$@"; do
